@@ -176,6 +176,13 @@ pub fn execute(focus: &str, sc: &WalkScenario) -> (Vec<Violation>, Counters, u64
                     vals.push(rng.below(3) as u8);
                 }
                 plans::check_plans(&vals, &mut rng, &mut v, &mut c);
+                // long vectors with many ties (sorting algorithms switch strategy with the length)
+                if rng.chance(1, 4) {
+                    let n = rng.range(20, 300) as usize;
+                    let distinct = rng.range(1, 5);
+                    let long: Vec<u8> = (0..n).map(|_| rng.below(distinct) as u8).collect();
+                    plans::check_plans(&long, &mut rng, &mut v, &mut c);
+                }
             }
         }
         _ => {}
